@@ -69,6 +69,9 @@ pub struct DlCfg {
     /// was used; the application's reply has meanwhile gained options (more overhead) and the
     /// request carries an 8-byte token.  Only on a server that is dropped afterwards.
     pub late_block_probe: bool,
+    /// POST / PUT / FETCH whose (small) request body is described by a Block1 option (block 0, more
+    /// clear) - on the first request and, as RFC 7959 2.7 shows, repeated on every follow-up request
+    pub single_block1_everywhere: bool,
     pub noise_between_blocks: usize,
     /// requests on other keys handled while the first request of this transfer is still with the application
     pub overlap_first_exchange: usize,
@@ -79,7 +82,7 @@ pub struct DlCfg {
 
 impl DlCfg {
     pub fn base() -> DlCfg {
-        DlCfg { ep: 0, path: vec![], body: vec![], reply_opts: vec![], tkl: 0, strategy: Strategy::Follow, typ: 0, abandon_after: None, vary_tkl: false, code: 1, upload: None, req_payload: vec![], noise_between_blocks: 0, overlap_first_exchange: 0, skip_release_probes: false, stale_resume_first: None, late_block_probe: false }
+        DlCfg { ep: 0, path: vec![], body: vec![], reply_opts: vec![], tkl: 0, strategy: Strategy::Follow, typ: 0, abandon_after: None, vary_tkl: false, code: 1, upload: None, req_payload: vec![], noise_between_blocks: 0, overlap_first_exchange: 0, skip_release_probes: false, stale_resume_first: None, late_block_probe: false, single_block1_everywhere: false }
     }
 }
 
@@ -214,6 +217,14 @@ pub fn download(server: &mut Server, cfg: &DlCfg, ids: &mut Ids) -> (Vec<Finding
     req.mid = mid;
     req.token = tok;
     req.block2 = client_szx.map(|s| (0, false, s));
+    if cfg.single_block1_everywhere && cfg.upload.is_none() {
+        req.block1 = Some((0, false, 6));
+        if req.payload.is_empty() {
+            req.payload = b"single block body".to_vec();
+        }
+    }
+    let first_block1 = req.block1;
+    let first_payload = req.payload.clone();
     let mut noise_id: u32 = (ids.mid as u32) << 12;
     let noise_path = cfg.path.clone();
     let noise_ep = cfg.ep;
@@ -293,8 +304,8 @@ pub fn download(server: &mut Server, cfg: &DlCfg, ids: &mut Ids) -> (Vec<Finding
         if &seen != ubody {
             bail!(Scope::Upload, "delivered-body-differs-in-session", "application received {} bytes, client uploaded {} (first difference at {})", seen.len(), ubody.len(), seen.iter().zip(ubody.iter()).position(|(a, b)| a != b).unwrap_or(seen.len().min(ubody.len())));
         }
-    } else if ex.app_saw_payload.as_deref() != Some(&cfg.req_payload[..]) {
-        bail!(Scope::Transfer, "request-payload-altered", "application saw {:?} bytes, request carried {}", ex.app_saw_payload.as_ref().map(|p| p.len()), cfg.req_payload.len());
+    } else if ex.app_saw_payload.as_deref() != Some(&first_payload[..]) {
+        bail!(Scope::Transfer, "request-payload-altered", "application saw {:?} bytes, request carried {}", ex.app_saw_payload.as_ref().map(|p| p.len()), first_payload.len());
     }
     match ex.intercept_response.as_ref().unwrap() {
         Step::Panic(p) => bail!(Scope::Transfer, &p.sig(), "{}", p.text()),
@@ -327,7 +338,7 @@ pub fn download(server: &mut Server, cfg: &DlCfg, ids: &mut Ids) -> (Vec<Finding
             bail!(Scope::Transfer, "reply-code", "code {} on block {}", reply.header.code, blocks_done);
         }
         let mut got_opts = reply_opts_without(reply, 23);
-        if cfg.upload.is_some() {
+        if cfg.upload.is_some() || first_block1.is_some() {
             // the Block1 acknowledgement rides on the reply to the final upload block (and on the
             // blocks cut from it); it is not one of the application's options
             got_opts.retain(|o| o.0 != 27);
@@ -432,6 +443,10 @@ pub fn download(server: &mut Server, cfg: &DlCfg, ids: &mut Ids) -> (Vec<Finding
                 r.mid = mid;
                 r.token = tok;
                 r.block2 = Some(((received.len() / nsize) as u32, false, next_szx));
+                if cfg.single_block1_everywhere && cfg.upload.is_none() {
+                    r.block1 = first_block1;
+                    r.payload = first_payload.clone();
+                }
                 if cfg.noise_between_blocks > 0 {
                     let mut nid: u32 = 0x4000_0000 | (r.mid as u32) << 12;
                     for _ in 0..cfg.noise_between_blocks {
@@ -890,7 +905,8 @@ pub fn run_sessions(rep: &mut Report, r: &mut Rng, n: u64, level: u32, scope: Sc
                 2 => Strategy::Early(r.below(7) as u8),
                 _ => Strategy::Reduce { early: None, after: r.urange(1, 2), new_szx: r.below(2) as u8 },
             };
-            let cfg = DlCfg { ep: 7, path: vec!["sess".into()], body: body_bytes(r.next_u64(), blen), reply_opts: opts.clone(), tkl, strategy, typ: 0, abandon_after: None, vary_tkl: r.chance(1, 3), code, upload, req_payload: if code != 1 && r.bool() { b"q".to_vec() } else { vec![] }, noise_between_blocks: 0, overlap_first_exchange: 0, skip_release_probes: t + 1 < ntx && r.chance(2, 3), stale_resume_first: if r.chance(1, 8) { Some((r.urange(3, 3000) as u32, r.below(7) as u8)) } else { None } , late_block_probe: false };
+            let upload_is_none = upload.is_none();
+            let cfg = DlCfg { ep: 7, path: vec!["sess".into()], body: body_bytes(r.next_u64(), blen), reply_opts: opts.clone(), tkl, strategy, typ: 0, abandon_after: None, vary_tkl: r.chance(1, 3), code, upload, req_payload: if code != 1 && r.bool() { b"q".to_vec() } else { vec![] }, noise_between_blocks: 0, overlap_first_exchange: 0, skip_release_probes: t + 1 < ntx && r.chance(2, 3), stale_resume_first: if r.chance(1, 8) { Some((r.urange(3, 3000) as u32, r.below(7) as u8)) } else { None } , late_block_probe: false , single_block1_everywhere: code != 1 && upload_is_none && r.chance(1, 2) };
             story.push(format!("#{} {} upload {:?} reply {}B strategy {:?} vary_tkl {}", t, coap_lite::MessageClass::from(code), cfg.upload.as_ref().map(|u| (u.0.len(), szx_size(u.1))), blen, cfg.strategy, cfg.vary_tkl));
             let witness = format!("session on one handler and key, budget {} reply options {:?}: {}", m, opts.iter().map(|o| o.0).collect::<Vec<_>>(), story.join(" ; "));
             set_case_str(&witness);
@@ -1528,11 +1544,63 @@ pub fn run_c09(ctx: &mut Ctx) {
 
 // ---- C10
 
+/// A client resumes deep inside a very long body (block numbers near the top of what the option can
+/// carry at its size) on a handler whose budget only admits much smaller blocks: whatever the handler
+/// answers - an error is fine - a block-wise reply must fit the budget and the client's size.
+fn deep_resume(rep: &mut Report, r: &mut Rng) {
+    let body = body_bytes(77, 2_200_000);
+    for (num, szx) in [(1984u32, 6u8), (1985, 6), (2047, 6), (2100, 6), (8000, 4), (40_000, 1), (65_535, 0), (1000, 6)] {
+        for slack in [28usize, 29, 36, 44, 60] {
+            rep.eval();
+            let tkl = r.usize_below(9);
+            let overhead = reply_overhead(tkl, &[]);
+            let m = overhead + slack;
+            let mut server = Server::new(m, LONG);
+            let mut q = ReqSpec::new(1, &["deep"]);
+            q.mid = num as u16;
+            q.token = vec![0x5d; tkl];
+            q.block2 = Some((num, false, szx));
+            let b = body.clone();
+            let mut app = move |_r: &coap_lite::CoapRequest<CEp>| AppReply::content(b.clone());
+            let ex = server.exchange(&q.bytes(), 1, &mut app);
+            let witness = format!("budget {} (reply overhead {} + {}), 2.2 MB body, first request Block2({}, szx {})", m, overhead, slack, num, szx);
+            if let Step::Panic(p) = &ex.intercept_request {
+                rep.violation(&p.sig(), p.text(), witness);
+                continue;
+            }
+            if let Some(Step::Panic(p)) = &ex.intercept_response {
+                rep.violation(&p.sig(), p.text(), witness);
+                continue;
+            }
+            if let (Some(l), Some(reply)) = (ex.reply_len, &ex.reply) {
+                if let Some(raw) = reply.get_first_option(CoapOption::Block2) {
+                    if u8::from(reply.header.code) == 0x45 {
+                        if l > m {
+                            rep.violation("deep-resume:block2-reply-exceeds-budget", format!("reply of {} bytes, budget {}: {}", l, m, ex.summary()), witness);
+                            continue;
+                        }
+                        if let Some((_, _, sr)) = parse_block(raw) {
+                            if sr > szx {
+                                rep.violation("deep-resume:block-size-larger-than-client-asked", format!("client asked for szx {}, reply uses szx {}", szx, sr), witness);
+                                continue;
+                            }
+                        }
+                    }
+                }
+            }
+            rep.count("deep_resume_requests_checked");
+        }
+    }
+}
+
 pub fn run_c10(ctx: &mut Ctx) {
     let mut r = ctx.rng(10);
     let (level, budget, shard, nshards) = (ctx.level, ctx.budget, ctx.shard, ctx.nshards);
     let rep = &mut ctx.rep;
     let mut ids = Ids { mid: 0x3000, tok: 13 };
+    if shard == 2 && level > 0 {
+        deep_resume(rep, &mut r);
+    }
     // directed: budgets with M - overhead - 12 in a +-3 band around every 2^k, and overhead+28..+80
     let mut idx = 0u64;
     let mut directed: Vec<(usize, i64)> = Vec::new(); // (k or 0, offset)
